@@ -68,14 +68,11 @@ let all_assign_idx (s : nat list) : nat list list =
 
 exception Solver_gave_up of string
 
-let rec judge _id (c : cursor) (r : cursor) : bool * string =
-  try judge_case c r with Solver_gave_up tag -> (false, tag)
-and judge_case (c : cursor) (r : cursor) : bool * string =
-  let kind = next c in
-  match kind with
-  | "flp" ->
+(* one call of FactoredLP::operator() on the state space [s]: case tokens <addConst> <C> <b>, impl tokens as
+   printed by the harness's runFlpCall.  The model is a function of the call's inputs only — a call
+   on an already used object must build the same system as a call on a fresh one. *)
+let judge_flp_call (s : nat list) (c : cursor) (r : cursor) : bool * string =
     let site = "FactoredLP::operator()" in
-    let s = next_nats c in
     let ac = next_int c <> 0 in
     let cb = read_fv c in
     let bb = read_fv c in
@@ -137,7 +134,9 @@ and judge_case (c : cursor) (r : cursor) : bool * string =
     end;
     let overlapping = List.exists (fun f -> List.length f.bfTag > 1) (cb @ bb) in
     (List.length s > 1 && overlapping, (if const_only then "flp-const-only" else if ac then "flp-const" else "flp"))
-  | "mlp" ->
+
+(* one call of LinearProgramming::operator() (case tokens = an mlp spec) *)
+let judge_mlp_call (c : cursor) (r : cursor) : bool * string =
     let site = "LinearProgramming::solveLP" in
     let s = next_nats c in
     let a = next_nats c in
@@ -256,6 +255,34 @@ and judge_case (c : cursor) (r : cursor) : bool * string =
     (fok && solved && (ns_f > 1 || List.length a > 1),
      (if not fok then "mlp-flat-unsolved" else if not solved then "mlp-solver-gave-up" else if nfin >= 2 then "mlp-multi" else "mlp")
      ^ (if orig_form then "-origrows" else ""))
+
+(* a sequence of calls on ONE object: every call is judged exactly like a call on a fresh object *)
+let judge_calls (n : int) (tag : string) (r : cursor) (one : unit -> bool * string) : bool * string =
+  for i = 1 to n do
+    expect r "CALL";
+    (try ignore (one ())
+     with
+     | Solver_gave_up _ -> ()
+     | OracleFail (cl, st, d) -> raise (OracleFail (cl, st, Printf.sprintf "call %d of %d on the same object: %s" i n d))
+     | Disagreement (cl, st, d) -> raise (Disagreement (cl, st, Printf.sprintf "call %d of %d on the same object: %s" i n d)))
+  done;
+  (true, tag)
+
+let judge_case (c : cursor) (r : cursor) : bool * string =
+  let kind = next c in
+  match kind with
+  | "flp" -> let s = next_nats c in judge_flp_call s c r
+  | "flpr" ->
+    let s = next_nats c in
+    let n = next_int c in
+    judge_calls n "flp-reuse" r (fun () -> judge_flp_call s c r)
+  | "mlp" -> judge_mlp_call c r
+  | "mlpr" ->
+    let n = next_int c in
+    judge_calls n "mlp-reuse" r (fun () -> judge_mlp_call c r)
   | k -> failwith ("unknown case kind " ^ k)
+
+let judge _id (c : cursor) (r : cursor) : bool * string =
+  try judge_case c r with Solver_gave_up tag -> (false, tag)
 
 let () = main_loop judge
